@@ -213,7 +213,15 @@ func childPairs(a []string) {
 				}(name, g.Fork())
 			}
 		}
-		wg.Wait()
+		finished := make(chan struct{})
+		go func() { wg.Wait(); close(finished) }()
+		select {
+		case <-finished:
+		case <-time.After(time.Until(deadline) + 4*time.Second):
+			// the calls never returned: dump who is parked on a mutex of the store packages and give up
+			dumpParked(fmt.Sprintf("%s.%s concurrently with %s (and the store's producer methods): the calls did not return within 4 s after the end of the run", p.Store, p.A, p.B))
+			os.Exit(0)
+		}
 		fmt.Fprintf(os.Stderr, "@@CALLS %d %d\n", i, calls)
 	}
 	fmt.Fprintln(os.Stderr, "@@DONE")
@@ -252,6 +260,30 @@ func plainBin() (string, error) {
 	return plainPath, plainErr
 }
 
+// runChild runs cmd with a time limit and returns everything it printed (the child is killed on time-out)
+func runChild(cmd *exec.Cmd, limit time.Duration) string {
+	var buf bytes.Buffer
+	cmd.Stdout, cmd.Stderr = &buf, &buf
+	if err := cmd.Start(); err != nil {
+		return "@@NOSTART " + err.Error()
+	}
+	done := make(chan struct{})
+	go func() { cmd.Wait(); close(done) }()
+	timedOut := false
+	select {
+	case <-done:
+	case <-time.After(limit):
+		cmd.Process.Kill()
+		<-done
+		timedOut = true
+	}
+	out := buf.String()
+	if timedOut {
+		out += "\n@@TIMEOUT\n"
+	}
+	return out
+}
+
 // runs one child over the given pairs and returns its stderr
 func runPairs(pairs []pairSpec, mode string, millis int, seed int64, workers int) string {
 	bin := os.Args[0]
@@ -269,19 +301,7 @@ func runPairs(pairs []pairSpec, mode string, millis int, seed int64, workers int
 	defer os.Remove(f.Name())
 	cmd := exec.Command(bin, "child-pairs", f.Name())
 	cmd.Env = append(os.Environ(), "GORACE=halt_on_error=0")
-	var buf bytes.Buffer
-	cmd.Stdout, cmd.Stderr = &buf, &buf
-	done := make(chan struct{})
-	go func() { cmd.Run(); close(done) }()
-	limit := time.Duration(len(pairs)*millis)*time.Millisecond*4 + 60*time.Second
-	select {
-	case <-done:
-	case <-time.After(limit):
-		cmd.Process.Kill()
-		<-done
-		buf.WriteString("\n@@TIMEOUT\n")
-	}
-	return buf.String()
+	return runChild(cmd, time.Duration(len(pairs)*millis)*time.Millisecond*4+60*time.Second)
 }
 
 func runPair(store, a, b, mode string, d time.Duration, seed int64) string {
@@ -354,6 +374,10 @@ func searchRace(rep *report, d diag, budget time.Duration, g *lib.Rng) (bool, ev
 	relayFallback := func(secs int) (bool, evidence) {
 		ev.Tried = append(ev.Tried, fmt.Sprintf("full relay under 16 clients (race build, %ds)", secs))
 		out := runRelayChild(secs, int64(g.Intn(1<<30)))
+		if i := strings.Index(out, "@@CORRUPT "); i >= 0 && d.Kind == "buffer-shared-across-goroutines" {
+			ev.Store, ev.A, ev.B, ev.Mode, ev.Evidence = store, method, "(full relay, large frames)", "race", strings.SplitN(out[i:], "\n", 2)[0]
+			return true, ev
+		}
 		if hit, txt := raceOnGuarded(rep, out); hit {
 			ev.Store, ev.A, ev.B, ev.Mode, ev.Evidence = store, method, "(full relay, 16 clients)", "race", txt
 			return true, ev
@@ -409,6 +433,10 @@ func searchRace(rep *report, d diag, budget time.Duration, g *lib.Rng) (bool, ev
 				ev.Tried = append(ev.Tried, out)
 				break
 			}
+			if hung, txt := hangEvidence(out); hung {
+				ev.Store, ev.A, ev.B, ev.Mode, ev.Evidence, ev.Seconds = store, method, c, mode, txt, time.Since(t0).Seconds()
+				return true, ev
+			}
 			if hit, txt := raceOnGuarded(rep, out); hit {
 				ev.Store, ev.A, ev.B, ev.Mode, ev.Evidence, ev.Seconds = store, method, c, mode, txt, time.Since(t0).Seconds()
 				if mode == "race" {
@@ -433,6 +461,40 @@ func searchRace(rep *report, d diag, budget time.Duration, g *lib.Rng) (bool, ev
 	}
 	if rem := budget - time.Since(start); rem > 3*time.Second {
 		return relayFallback(int(rem/time.Second) - 1)
+	}
+	return false, ev
+}
+
+// searchSelfDeadlock: a method that re-acquires a lock it holds - call it (against itself, with the store's producers
+// feeding it) until the calls stop returning
+func searchSelfDeadlock(d diag, g *lib.Rng) (bool, evidence) {
+	var ev evidence
+	store, method := splitName(d.Func)
+	stores := newStores()
+	callable := false
+	if v, ok := stores[store]; ok {
+		for _, m := range storeMethods(v) {
+			if m == method {
+				callable = true
+			}
+		}
+	}
+	if !callable {
+		ev.Tried = append(ev.Tried, d.Func+" cannot be called directly; POST /session against POST /bids/deny|allow on a real relay, then a 5 s watchdog probe")
+		out := runRelayChildMode(4, int64(g.Intn(1<<30)), "denysession")
+		if hung, txt := hangEvidence(out); hung {
+			ev.Store, ev.A, ev.B, ev.Mode, ev.Evidence = store, method, "(full relay)", "race", txt
+			return true, ev
+		}
+		return false, ev
+	}
+	for _, secs := range []int{3, 8} {
+		ev.Tried = append(ev.Tried, fmt.Sprintf("%s || %s with the store's producers, %d s, watchdog", method, method, secs))
+		out := runPair(store, method, method, "race", time.Duration(secs)*time.Second, int64(g.Intn(1<<30)))
+		if hung, txt := hangEvidence(out); hung {
+			ev.Store, ev.A, ev.B, ev.Mode, ev.Evidence, ev.Seconds = store, method, method, "race", txt, float64(secs)
+			return true, ev
+		}
 	}
 	return false, ev
 }
@@ -516,18 +578,7 @@ func runRelayChild(seconds int, seed int64) string { return runRelayChildMode(se
 func runRelayChildMode(seconds int, seed int64, mode string) string {
 	cmd := exec.Command(os.Args[0], "child-relay", fmt.Sprint(seconds), fmt.Sprint(seed), mode)
 	cmd.Env = append(os.Environ(), "GORACE=halt_on_error=0")
-	var buf bytes.Buffer
-	cmd.Stdout, cmd.Stderr = &buf, &buf
-	done := make(chan struct{})
-	go func() { cmd.Run(); close(done) }()
-	select {
-	case <-done:
-	case <-time.After(time.Duration(seconds)*time.Second + 60*time.Second):
-		cmd.Process.Kill()
-		<-done
-		buf.WriteString("\n@@TIMEOUT\n")
-	}
-	return buf.String()
+	return runChild(cmd, time.Duration(seconds)*time.Second+90*time.Second)
 }
 
 func stressRelay(res *lib.Result, rep *report, args lib.Args, g *lib.Rng) {
@@ -545,6 +596,17 @@ func stressRelay(res *lib.Result, rep *report, args lib.Args, g *lib.Rng) {
 		}
 	} else {
 		res.Notes = append(res.Notes, "relay stress did not report: "+tail(out, 400))
+	}
+	if i := strings.Index(out, "@@CORRUPT "); i >= 0 {
+		line := strings.SplitN(out[i+len("@@CORRUPT "):], "\n", 2)[0]
+		res.Violate(lib.Violation{Clause: "delivered-frame-corrupted", Case: -1, Key: "corrupt:bigframes",
+			Detail: "large frames sent back-to-back through a real relay to a slow reader: " + line,
+			Replay: replayCase{Kind: "bigframes", Evidence: "@@CORRUPT " + line}})
+	}
+	if m := regexp.MustCompile(`@@BIGFRAMES done intact=(\d+)`).FindStringSubmatch(out); m != nil {
+		var n int
+		fmt.Sscan(m[1], &n)
+		res.CountN("relay_large_frames_delivered_intact", n)
 	}
 	if hung, txt := hangEvidence(out); hung {
 		res.Violate(lib.Violation{Clause: "relay-deadlocks-under-concurrent-requests", Case: -1, Key: "hang:relay",
@@ -632,6 +694,11 @@ func hangProbe(r *lib.Relay, admin string) {
 		fmt.Fprintln(os.Stderr, "@@ALIVE")
 		return
 	}
+	dumpParked(fmt.Sprintf("the relay no longer answers POST /session (status %d) or POST /bids/deny (status %d) within 5 s, twice", sts[0], sts[1]))
+}
+
+// dumpParked prints @@HANG <what> and the goroutines of the store packages that are parked on a mutex
+func dumpParked(what string) {
 	buf := make([]byte, 4<<20)
 	n := runtime.Stack(buf, true)
 	var keep []string
@@ -640,7 +707,7 @@ func hangProbe(r *lib.Relay, admin string) {
 			keep = append(keep, g)
 		}
 	}
-	fmt.Fprintf(os.Stderr, "@@HANG the relay no longer answers POST /session (status %d) or POST /bids/deny (status %d) within 5 s, twice; %d goroutine(s) of the store packages are parked on a mutex\n", sts[0], sts[1], len(keep))
+	fmt.Fprintf(os.Stderr, "@@HANG %s; %d goroutine(s) of the store packages are parked on a mutex\n", what, len(keep))
 	// goroutines that sit in two store packages at once (holding one lock, waiting for the other) first
 	pkgs := func(g string) int {
 		m := map[string]bool{}
@@ -676,6 +743,81 @@ func hangProbe(r *lib.Relay, admin string) {
 	}
 }
 
+// bigFrames: one writer sends large self-describing frames (4 KiB .. 1 MiB) back-to-back to a reader that starts
+// reading late, so that several large frames are in flight inside the relay at once; every frame the reader gets
+// must be, byte for byte, one of the frames sent, in sending order. Returns a description of the first corrupt
+// frame, or "".
+var bigDelivered int
+
+func bigFrames(r *lib.Relay, round int) string {
+	now := time.Now().Unix()
+	topic := fmt.Sprintf("big%d", round)
+	connect := func(bid string) *websocket.Conn {
+		tok := lib.Sign(r.Claims(topic, bid, []string{"read", "write"}, now-2, now-2, now+60), r.Secret)
+		st, uri, _ := r.Session(topic, tok)
+		if st != 200 {
+			return nil
+		}
+		ws, _, err := lib.Dial(uri, nil)
+		if err != nil {
+			return nil
+		}
+		return ws
+	}
+	rdr := connect(fmt.Sprintf("big-r-%d", round))
+	wtr := connect(fmt.Sprintf("big-w-%d", round))
+	if rdr == nil || wtr == nil {
+		return ""
+	}
+	defer rdr.Close()
+	defer wtr.Close()
+	time.Sleep(50 * time.Millisecond) // both registered with the hub
+	sizes := []int{4096, 65536, 1 << 20, 5000, 70000, 1 << 20}
+	total := 0
+	for k, n := range sizes {
+		f := make([]byte, n)
+		fill := byte(17*k + 3 + round)
+		for i := range f {
+			f[i] = fill
+		}
+		copy(f, []byte{'V', 'F', 'R', 'M', byte(k), 0, 0, 0, byte(n), byte(n >> 8), byte(n >> 16), byte(n >> 24), fill, fill, fill, fill})
+		if err := wtr.WriteMessage(websocket.BinaryMessage, f); err != nil {
+			return ""
+		}
+		total += n
+	}
+	time.Sleep(400 * time.Millisecond) // the reader is slow: all frames are queued inside the relay by now
+	got, next := 0, 0
+	for got < total {
+		_, data, err := lib.ReadOne(rdr, 3*time.Second)
+		if err != nil {
+			return "" // dropped or closed: nothing to say about content
+		}
+		// the writer side of the relay may put several queued frames into one websocket message
+		for off := 0; off < len(data); {
+			if len(data)-off < 16 || string(data[off:off+4]) != "VFRM" {
+				return fmt.Sprintf("after %d intact frame(s), at byte %d of a %d-byte message: no frame header where one must be (sizes sent back-to-back: %v)", next, off, len(data), sizes)
+			}
+			k := int(data[off+4])
+			n := int(data[off+8]) | int(data[off+9])<<8 | int(data[off+10])<<16 | int(data[off+11])<<24
+			fill := data[off+12]
+			if k != next || k >= len(sizes) || n != sizes[k] || off+n > len(data) {
+				return fmt.Sprintf("frame %d expected (%d bytes), got a header saying frame %d of %d bytes: frames delivered out of order, twice, or with another frame's bytes (sizes sent back-to-back: %v)", next, sizes[next%len(sizes)], k, n, sizes)
+			}
+			for i := off + 16; i < off+n; i++ {
+				if data[i] != fill {
+					return fmt.Sprintf("frame %d (%d bytes, every byte 0x%02x when sent) arrives with byte %d = 0x%02x: it contains bytes of another frame (sizes sent back-to-back: %v)", k, n, fill, i-off, data[i], sizes)
+				}
+			}
+			off += n
+			got += n
+			next++
+			bigDelivered++
+		}
+	}
+	return ""
+}
+
 func childRelay(a []string) {
 	secs, seed := 3, int64(1)
 	mode := "mix"
@@ -693,6 +835,19 @@ func childRelay(a []string) {
 	admin := r.AdminBearer("relay:admin")
 	stats := r.AdminBearer("relay:stats")
 	g := lib.NewRng(seed)
+	if mode == "mix" || mode == "bigframes" {
+		for round := 0; round < 3; round++ {
+			if bad := bigFrames(r, round); bad != "" {
+				fmt.Fprintf(os.Stderr, "@@CORRUPT %s\n", bad)
+				break
+			}
+		}
+		fmt.Fprintf(os.Stderr, "@@BIGFRAMES done intact=%d\n", bigDelivered)
+		if mode == "bigframes" {
+			r.Stop()
+			return
+		}
+	}
 	deadline := time.Now().Add(time.Duration(secs) * time.Second)
 	var sessions, conns, msgs, adm int64
 	var wg sync.WaitGroup
